@@ -87,7 +87,7 @@ impl Sem for CpxSem {
                        self.flags.inexact(1e-12); let z = div(a, b);
                        if !(z.0.is_finite() && z.1.is_finite()) { return Err(Stop::Unspec("NonFiniteComplexResult")); } Ok(z) }
             "pow" => { self.cut(near_real_below(a, 0.0))?;
-                       if self.flags.tol.get() > 0.0 && !(modulus(b) <= 1e3) { return Err(Stop::Unspec("ErrorAmplificationAfterInexactOperation")); }
+                       if self.flags.tol.get() > 0.0 && !(modulus(b) <= 1e2) { return Err(Stop::Unspec("ErrorAmplificationAfterInexactOperation")); }
                        self.t(powc(a, b)) }
             _ => Err(Stop::Err("operator not offered")),
         }
@@ -100,7 +100,7 @@ impl Sem for CpxSem {
         let z = args[0];
         if args.iter().any(|a| !(a.0.is_finite() && a.1.is_finite())) { return Err(Stop::Unspec("NonFiniteComplexOperand")); }
         // functions that amplify the (tolerated) relative error of an inexact operand by its magnitude: outside what a fixed tolerance decides
-        if self.flags.tol.get() > 0.0 && matches!(func, "Exp" | "Exp2" | "Sin" | "Cos" | "Tan" | "Sinh" | "Cosh" | "Tanh") && !(modulus(z) <= 1e3) {
+        if self.flags.tol.get() > 0.0 && matches!(func, "Exp" | "Exp2" | "Sin" | "Cos" | "Tan" | "Sinh" | "Cosh" | "Tanh") && !(modulus(z) <= 1e2) {
             return Err(Stop::Unspec("ErrorAmplificationAfterInexactOperation"));
         }
         match func {
